@@ -18,7 +18,8 @@ inductive VShape where
   | bad                       -- anything else (Go int, nil, string, struct, …)
 deriving Repr
 
-/-- `validateType`: recursive over collections -/
+/-- `validateType`: a System value, a FHIR element, or a collection whose items are such values —
+    collections do not nest -/
 def validShape : VShape → Bool
   | .sys _ => true
   | .elem _ => true
@@ -27,7 +28,9 @@ def validShape : VShape → Bool
 where
   validItems : List VShape → Bool
     | [] => true
-    | x :: xs => validShape x && validItems xs
+    | .sys _ :: xs => validItems xs
+    | .elem _ :: xs => validItems xs
+    | _ :: _ => false
 
 structure EnvOpt where
   name : String
